@@ -94,7 +94,7 @@ def check(ctx):
     from .C01 import check_backfill
     check_backfill(ctx)
     from .C10 import check_node_identity
-    check_node_identity(ctx, ('taxonomy.taxonomy_tree', 'cli.from_specified_markers'), floor=1)
+    check_node_identity(ctx, ('taxonomy.', 'cli.from_specified_markers'), floor=1)
     # settings this property depends on are handed down every call
     # chain, never left to a callee's default (sa/rules/forwarding.py)
     from ..rules.forwarding import check_forwarding
